@@ -110,6 +110,9 @@ def mc_case(draw, sub, tier="quick"):
         o["cut2"] = [draw(st.sampled_from([1, -2, 3]))]
     if sc["paired"] and draw(st.integers(0, 7)) == 0:
         o["length2_arg"] = draw(st.sampled_from([4, 9]))
+    if not sc["f"].get("demux") and (not sc["paired"] or sc["out"].get("interleaved_out")) and not sc.get("extra") \
+            and not sc.get("side") and draw(st.integers(0, 4)) == 0:
+        sc["stdout"] = draw(st.sampled_from(["plain", "fasta"]))
     return sc
 
 
@@ -138,6 +141,10 @@ def compare_runs(sc, serial, par, what, args):
             raise Violation(f"{what}: file {name} differs from the one-core run ({len(b)} vs {len(a)} bytes) ({args})",
                             observed=b[:600].decode("ascii", "replace"), expected=a[:600].decode("ascii", "replace"),
                             tag="content")
+    if sc.get("stdout") and serial.stdout != par.stdout:
+        raise Violation(f"{what}: standard output differs from the one-core run ({len(par.stdout)} vs "
+                        f"{len(serial.stdout)} bytes) ({args})", observed=par.stdout[:400].decode("ascii", "replace"),
+                        expected=serial.stdout[:400].decode("ascii", "replace"), tag="stdout")
     ja, jb = strip_json(serial.json), strip_json(par.json)
     if ja != jb:
         diff = {k: (jb.get(k), ja.get(k)) for k in ja if ja.get(k) != jb.get(k)} if ja and jb else None
@@ -148,6 +155,12 @@ def compare_runs(sc, serial, par, what, args):
 def base_args(sc):
     args, files, _ = routing.render(sc)
     args = sc.get("extra", []) + args
+    if sc.get("stdout"):
+        # main output on standard output (single-end or interleaved), optionally forced to FASTA
+        i = args.index("-o")
+        del args[i:i + 2]
+        if sc["stdout"] == "fasta":
+            args = ["--fasta"] + args
     return args, files
 
 
